@@ -408,6 +408,7 @@ type Contract struct {
 	File     string
 	Line     int
 	MayPanic bool
+	NonRec   bool // structural obligation: the function is not part of a call cycle (stack use does not depend on the input)
 	Asserts  []Clause // lemma hints: assumed-after-proved facts at function entry
 	Hints    map[string][]Clause // "callee#k" -> facts proved (then assumed) just before that call
 	used     bool
@@ -416,7 +417,7 @@ type Contract struct {
 var clauseKeywords = map[string]bool{
 	"func": true, "extern": true, "property": true, "uses": true, "requires": true, "ensures": true,
 	"modifies": true, "decreases": true, "loop": true, "invariant": true, "trusted": true, "pure": true,
-	"maypanic": true, "lemma": true, "hint": true, "hintafter": true,
+	"maypanic": true, "nonrecursive": true, "lemma": true, "hint": true, "hintafter": true,
 }
 
 // parseContractFile reads //@ lines.
@@ -473,6 +474,8 @@ func parseContractFile(path, pkg, text string) ([]*Contract, error) {
 			cur.Pure = true
 		case "maypanic":
 			cur.MayPanic = true
+		case "nonrecursive":
+			cur.NonRec = true
 		case "requires":
 			c, err := mk()
 			if err != nil {
